@@ -109,6 +109,8 @@ def grid_case(case):
     lims = [(None if l is None else tuple(l)) for l in case['lims']]
     m = build(spec, x0, lims, np.asarray(case['theta'], float))
     grid = case['grid']
+    if case.get('late_start'):
+        grid = grid[1:]            # the first requested time lies strictly after the initial time (events happen before it)
     g = {'list': list(grid), 'tuple': tuple(grid), 'array': np.array(grid, float)}[case.get('grid_type', 'array')]
     nS, nE = len(spec['states']), len(spec['events'])
     runs = case.get('runs', 3)
@@ -133,7 +135,7 @@ def _grid_one(m, spec, x0, grid, nS, nE, Xg, Jg, Xr, Jr, Tr):
     bad = []
     if Xg.shape != (len(grid), nS):
         return ["gridded states have shape %s, expected %s" % (Xg.shape, (len(grid), nS))], 0
-    if not np.array_equal(Xg[0], x0):
+    if grid[0] == float(m._t0) and not np.array_equal(Xg[0], x0):
         bad.append("first gridded row is not the initial state")
     for k, tk in enumerate(grid):
         j = np.searchsorted(Tr, tk, side='right') - 1
@@ -194,7 +196,7 @@ def grid_corpus(seed, n):
         horizon = float(rng.uniform(1.0, 4.0)) * (5 if long_grid else 0.4)
         grid = np.concatenate([[0.0], np.sort(rng.uniform(0.01, horizon, size=int(rng.randint(2, 9))))])
         out.append(dict(spec=spec, x0=x0.tolist(), lims=lims, theta=theta.tolist(), grid=[float(v) for v in grid],
-                        grid_type=('array', 'list', 'tuple')[k % 3], seed=int(rng.randint(1, 2 ** 31 - 1))))
+                        grid_type=('array', 'list', 'tuple')[k % 3], seed=int(rng.randint(1, 2 ** 31 - 1)), late_start=(k % 4 == 1 and len(grid) >= 4)))
     # a busy path: a large closed epidemic on a coarse grid, hundreds of firings of one transition inside one interval (counts that
     # only fit a wide integer)
     N = int(rng.randint(500, 900))
